@@ -1,8 +1,10 @@
 import SocVerif.Driver.MuxD
 import SocVerif.Driver.MemMapD
+import SocVerif.Driver.TreeD
 
 def main (args : List String) : IO UInt32 := do
   match args with
   | ["mux"] => MuxD.main; return 0
   | ["mmap"] => MemMapD.main; return 0
+  | ["tree"] => TreeD.main; return 0
   | _ => IO.eprintln "usage: driver <mux|mmap|...>"; return 2
